@@ -241,6 +241,38 @@ R2.update({
  "C18-12": ("/tmp/seeds8/J/3", "C18", "construction through new_with_metadata (not new) on a directory / device: the is_file refusal moved into new() only", ["C19"]),
 })
 
+# ninth round: "assume every dimension named so far is enumerated; find a NEW one"
+R2.update({
+ "C01-8": ("/tmp/seeds9/A/1", "C01", "body polled INSIDE a tokio task with an honest entity that yields more than 128 always-ready frames in one task poll: cooperative-budget check with ready! after the chunk was taken and counted, the chunk is dropped, clean end short of Content-Length", ["C02", "C12"]),
+ "C06-13": ("/tmp/seeds9/A/2", "C06", "multipart without If-Range and an entity header line longer than 998 bytes: 'folded' at arbitrary bytes with CRLF SP, extra lines in every part, value altered", ["C14"]),
+ "C06-14": ("/tmp/seeds9/A/3", "C06", "multipart without If-Range and an entity header whose name does not start with `content-`: filtered out of every part", ["C14"]),
+ "C02-9": ("/tmp/seeds9/B/1", "C02", "multipart part whose FIRST entity chunk is larger than 256 bytes and is followed by at least one more chunk: the first chunk is parked and emitted after the others (bytes reordered, lengths consistent)", ["C06", "C01"]),
+ "C07-7": ("/tmp/seeds9/B/2", "C07", "multipart part whose entity stream yields Err (or ends) as its very FIRST item: prefetch on emitting the part headers only handles Ready(Some(Ok)), the failure is dropped", ["C06", "C20"]),
+ "C07-8": ("/tmp/seeds9/B/3", "C07", "200 / single 206 whose entity stream is Ready(None) on its very first poll (immediate end, no Pending): serve() polls once with now_or_never and maps 'already over' to an empty body, Content-Length N with a clean 0-byte body", ["C01", "C02"]),
+ "C04-12": ("/tmp/seeds9/C/1", "C04", "entity tag whose closing quote directly follows a backslash (\"a\\\"), echoed in If-None-Match / If-Match: list parser treats backslash as an escape, swallows the closing quote, list corrupt", ["C14"]),
+ "C04-13": ("/tmp/seeds9/C/2", "C04", "entity whose ETag looks like the list separator (\", \") and an If-None-Match list of two or more other tags: substring fast path before the list walk answers 'matched'", ["C14"]),
+ "C03-14": ("/tmp/seeds9/C/3", "C03", "a grammatical Range value longer than 8190 bytes (1000 one-byte specs; one spec padded with 9000 leading zeros): treated as absent, complete 200", ["C13"]),
+ "C05-9": ("/tmp/seeds9/D/1", "C05", "an If-Range in tag form that does NOT equal the ETag together with an If-Match that passes (*, the current tag): strong comparison skipped because 'the validator was already checked', Range honoured", ["C04"]),
+ "C13-10": ("/tmp/seeds9/D/2", "C13", "multipart from an entity of >= ~10^15 bytes with a range start, end or the length just below a power of ten: decimal_len via f64 log10 one digit too many, announced length exceeds the stream, debug_assert panics while draining", ["C06", "C01"]),
+ "C13-11": ("/tmp/seeds9/D/3", "C13", "entity whose last_modified() is in year 10000 or later and a request with a consulted If-Modified-Since / If-Unmodified-Since (any value): the comparison round-trips the mtime through fmt_http_date, which panics", ["C04", "C14"]),
+ "C14-11": ("/tmp/seeds9/E/1", "C14", "entity modified in the CURRENT clock second (Last-Modified == Date, a file just written) and a second request echoing only Last-Modified in If-Modified-Since within that second: 'racy timestamp' guard refuses the 304", ["C04"]),
+ "C14-12": ("/tmp/seeds9/E/2", "C14", "two requests on one thread for the same future mtime, the first while it is still ahead of the clock, the second after it has passed: per-thread memo keyed by the unclamped mtime stores the clamped text, stale Last-Modified", []),
+ "C15-11": ("/tmp/seeds9/E/3", "C15", "HEAD with both Range and If-Range: 'when the method is GET' reading makes HEAD ignore If-Range while still honouring Range (GET 200, HEAD 206)", ["C05"]),
+ "C10-14": ("/tmp/seeds9/F/1", "C10", "producer flush / drop between the reader's two lock acquisitions (state restored and lock released before the waker is cloned and stored): lost wake-up", ["C08"]),
+ "C09-11": ("/tmp/seeds9/F/2", "C17", "builder history with_gzip_level(0) then with_gzip_level(n>0): cached `compression` field re-derived from its previous value, None is sticky; header says gzip, body is plain", ["C17"]),
+ "C08-8": ("/tmp/seeds9/F/3", "C10", "an explicit flush of a partly filled chunk while the consumer is inside poll_next: try_lock, on WouldBlock return Ok and keep the bytes: flush did nothing, consumer never woken (needs real contention / in-section preemption)", ["C10", "C09"]),
+ "C10-15": ("/tmp/seeds9/G/1", "C10", "consumer parked on an empty queue, producer calls flush() with an EMPTY staging buffer, then write + flush: the idle flush takes the waker before its early return and drops it without waking", ["C08"]),
+ "C12-13": ("/tmp/seeds9/G/2", "C12", "honest entity whose stream ends with a trailing EMPTY chunk after the last byte (also a 0-byte entity), consumer polls once more after the end flag: empty item with remaining == 0 becomes a too-long error", ["C01", "C07"]),
+ "C10-16": ("/tmp/seeds9/G/3", "C10", "two cooperating edits: same-waker re-poll returns Pending without looking at the queue while a waker is registered + the full-chunk hand-over wakes a clone and leaves it registered: woken consumer gets Pending with a chunk queued", ["C08"]),
+ "C11-12": ("/tmp/seeds9/H/1", "C11", "consumer parks with waker A, re-polls Pending with waker B, abort lands between that poll's unlock and re-lock (stale waker dropped and new one cloned outside the lock, state not re-checked): abort wakes nobody", ["C10"]),
+ "C20-10": ("/tmp/seeds9/H/2", "C20", "multipart part that fails on its very FIRST poll, then an extra poll, with an entity whose second get_range for the same range succeeds (transient fault): immediate-error arm does not fuse, the range is requested again", ["C07"]),
+ "C16-10": ("/tmp/seeds9/I/1", "C16", "two different weights of which at least one has a leading zero in the fraction (0.05, 0.009): value-based scaling (while q < 100 { q *= 10 }) makes 0.05 = 500", ["C17"]),
+ "C17-11": ("/tmp/seeds9/I/2", "C17", "identity body written with write_vectored using >= 2 slices, one of which (not the last) reaches a chunk boundary: override sums per-slice counts without stopping at a partial write, bytes dropped in the middle", ["C08"]),
+ "C18-13": ("/tmp/seeds9/J/1", "C18", "ONE instance reused: drain a whole-file stream of a file <= 65536 bytes, truncate the file, get_range again on the same instance: small-file cache answers from memory, clean end instead of UnexpectedEof", []),
+ "C18-14": ("/tmp/seeds9/J/2", "C18", "the same instance queried after the file was touched: last_modified() does an fstat and returns the CURRENT mtime", []),
+ "C19-12": ("/tmp/seeds9/J/3", "C19", "the header map passed to get() also carries a Range line (bytes=0-) next to a gzip-preferring Accept-Encoding: substitution suppressed for range requests, plain file, encoding() None", []),
+})
+
 def sh(cmd, **kw):
     return subprocess.run(cmd, shell=True, capture_output=True, text=True, **kw)
 
